@@ -71,6 +71,10 @@ static void build_alphabet(void)
         }
     }
 #if CO_SSDO_N > 1
+    if (mc_opt("csdo", 0)) for (int on = 0; on < 2; on++) {   /* the application switches the second server off and on again through 1201h:1 (EVDLC 0xFE marks the API event) */
+        if (NEV >= MAXEV) break;
+        memset(EV[NEV], 0, 8); EV[NEV][0] = (uint8_t)on; EVSRV[NEV] = 1; EVDLC[NEV] = 0xFE; NEV++;
+    }
     add_s(1, 0x40, 0x2011, 0, 0); add_s(1, 0x40, 0x2001, 0, 0); add_s(1, 0x60, 0x5A5A, 0x5A, 0x5A5A5A5A); add_s(1, 0x70, 0x5A5A, 0x5A, 0x5A5A5A5A); add_s(1, 0x80, 0, 0, 0);
     add_s(1, 0x2B, 0x2001, 0, 9); add_s(1, 0x21, 0x2011, 0, SDO_DS1); add_s(1, 0x00, 0x5A5A, 0x5A, 0x5A5A5A5A); add_s(1, 0x10, 0x5A5A, 0x5A, 0x5A5A5A5A);
     add_s(1, 0x09, 0x5A5A, 0x5A, 0x5A5A5A5A); add_s(1, 0x19, 0x5A5A, 0x5A, 0x5A5A5A5A); add_s(1, 0xC2, 0x2011, 0, SDO_DS1); add_s(1, 0x01, 0x5A5A, 0x5A, 0x5A5A5A5A); add_s(1, 0x82, 0x5A5A, 0x5A, 0x5A5A5A5A);
@@ -96,6 +100,7 @@ static int build(int cfg)
 static const char *ev_name(int e)
 {
     static char b[64];
+    if (EVDLC[e] == 0xFE) { snprintf(b, sizeof b, "application writes 1201h:1 = %s", EV[e][0] ? "000006C1h (server 1 on)" : "800006C1h (server 1 off)"); return b; }
     snprintf(b, sizeof b, "s%d%s:%02X %02X%02X%02X %02X%02X%02X%02X", EVSRV[e], EVDLC[e] == 8 ? "" : "(short DLC)", EV[e][0], EV[e][1], EV[e][2], EV[e][3], EV[e][4], EV[e][5], EV[e][6], EV[e][7]);
     return b;
 }
@@ -114,6 +119,19 @@ static int secondary(int e)
 static int step(int e)
 {
     if (EVSRV[e] == 0 && SM[0].st != S_IDLE && mc_opt("fewinit", 0) && secondary(e)) return MC_SKIP;
+    if (EVDLC[e] == 0xFE) {
+        /* switching a server off closes whatever it had open and touches nothing else - in particular not the transfer the other server is in */
+        CO_ERR er = CODictWrLong(&Node.Dict, CO_DEV(0x1201, 1), 0x6C1u | (EV[e][0] ? 0u : 0x80000000u));
+        mc_steps++;
+        if (er == CO_ERR_NONE) {
+            if (!EV[e][0]) { sdo_srv_off[1] = 1; sdo_adopt(sdo_dirty_obj[1]); sdo_dirty_obj[1] = -1; sm_reset(&SM[1]); }
+            else sdo_srv_off[1] = 0;
+        }
+    } else if (sdo_srv_off[EVSRV[e]]) {
+        int first = OBS.ntx;
+        w_rx(&Node, SDO_RX[EVSRV[e]], EVDLC[e], EV[e]); mc_steps++;
+        if (OBS.ntx != first) mc_fail("sdo-disabled-server-answers", "request %02X.. on the identifier of server %d, which is switched off, produced %d frame(s)", EV[e][0], EVSRV[e], OBS.ntx - first);
+    } else
     if (EVDLC[e] != 8) { w_rx(&Node, SDO_RX[EVSRV[e]], EVDLC[e], EV[e]); SM[EVSRV[e]].st = S_UNSPEC; mc_steps++; }
     else sdo_request(EVSRV[e], EV[e]);
     (void)CONodeGetErr(&Node);
